@@ -504,5 +504,16 @@ def build():
     return reg
 
 
+def extra_obligations(mods, tier, seed):
+    """end-to-end complement of the fragment contracts: literal arguments through the real parser, host getters vs firmware getters
+    and delays (BOUNDED; the fragment proofs bypass the parser's argument resolution by construction)"""
+    from progs import devdiff
+    out = devdiff.obligations("C04/diff", devdiff.actuator_scripts(), what="getter values and delays equal the host class's under CPython")
+    PROPERTY.setdefault("bounded", [])
+    PROPERTY["bounded"] = [b for b in PROPERTY["bounded"] if b.get("check") != "device differential"] + [
+        {"check": "device differential", "bound": f"{len(out)} scripts (Led, RGBLed, Servo, DCMotor commands with literal positional/keyword arguments), setup() + 2 passes"}]
+    return out
+
+
 def extra_evidence():
-    return {"firmware_fragments": _BUILD.get("info"), "translation_drops": "see cxxvc/cxx2py.py docstring"}
+    return {"firmware_fragments": _BUILD.get("info"), "translation_drops": "see cxxvc/cxx2py.py docstring", "bounded": PROPERTY.get("bounded", [])}
